@@ -4,6 +4,8 @@ import (
 	"fmt"
 	"go/ast"
 	"go/types"
+
+	"golang.org/x/tools/go/packages"
 )
 
 // A funcScope represents the scope within the function context.
@@ -58,6 +60,12 @@ type lambdaScope struct {
 	// It's set to true right before convertFuncDecl is called for the
 	// lambda's declaration.
 	compiled bool
+
+	// Compilation context of the file the literal is written in: the code of
+	// a literal can be emitted when another file or package is processed.
+	importMap map[string]string
+	typeInfo  *types.Info
+	currPkg   *packages.Package
 }
 
 type deferInfo struct {
